@@ -640,6 +640,172 @@ class Gen:
                     "dst": self.dst_pred(d, f["id"]), "coercer": None}
         return {"k": "link_constant", "dst": {"p": "any"}, "value": {"v": "none"}}
 
+    # -- positions below generic types ---------------------------------------------------------------------
+    # A coercer is requested per *location*: the key of a mapping at GenericParamLoc(pos=0), its value at pos=1,
+    # the element of an iterable / the type wrapped by Optional at pos=0, a field at its field location. The
+    # public predicates address these positions (`P[dict].generic_arg(1, str)`, `P[Dst].table`, ...), so EQUAL
+    # (source type, destination type) pairs at sibling positions may be served by DIFFERENT recipe entries.
+    def pos_shape(self, pairs, level, key=False):
+        """(source type, destination type) built from the leaf pairs `pairs`; the main pair (first) recurs at
+        most positions, so that sibling positions carry equal pairs"""
+        rng = self.rng
+        a, b = pairs[0] if self.chance(0.8) else rng.choice(pairs)
+        if key or level >= 3 or self.chance(0.15 + 0.25 * level):
+            return leaf(a), leaf(b)
+        r = rng.random()
+        if r < 0.5:
+            ks, kd = self.pos_shape(pairs, level + 1, key=True)
+            vs, vd = self.pos_shape(pairs, level + 1)
+            return {"t": "dict", "k": ks, "v": vs}, {"t": "dict", "k": kd, "v": vd}
+        es, ed = self.pos_shape(pairs, level + 1)
+        if r < 0.8:
+            o = rng.choice(["list", "list", "list", "tuple", "deque", "sequence"])
+            od = o if self.chance(0.5) else rng.choice(["list", "tuple", "deque", "sequence", "collection"])
+            return {"t": "iter", "o": o, "a": es}, {"t": "iter", "o": od, "a": ed}
+        if es["t"] == "opt":
+            return es, ed
+        return {"t": "opt", "a": es}, {"t": "opt", "a": ed}
+
+    @staticmethod
+    def pos_sites(s_ty, d_ty, s_stack, d_stack, by_id, out):
+        """every pair of location stacks (bottom first) a coercer is requested for, under same-name linking"""
+        out.append((s_stack, d_stack))
+        st, dt = s_ty["t"], d_ty["t"]
+        gp = lambda ty, pos: {"kind": "gparam", "ty": ty, "pos": pos}  # noqa: E731
+        if st == dt == "dict":
+            Gen.pos_sites(s_ty["k"], d_ty["k"], s_stack + [gp(s_ty["k"], 0)], d_stack + [gp(d_ty["k"], 0)], by_id, out)
+            Gen.pos_sites(s_ty["v"], d_ty["v"], s_stack + [gp(s_ty["v"], 1)], d_stack + [gp(d_ty["v"], 1)], by_id, out)
+        elif st == dt and st in ("iter", "opt"):
+            Gen.pos_sites(s_ty["a"], d_ty["a"], s_stack + [gp(s_ty["a"], 0)], d_stack + [gp(d_ty["a"], 0)], by_id, out)
+        elif st == dt == "model":
+            s, d = by_id[s_ty["cls"]], by_id[d_ty["cls"]]
+            for f in d["fields"]:
+                sf = next((x for x in s["fields"] if x["id"] == f["id"]), None)
+                if sf is not None:
+                    Gen.pos_sites(sf["ty"], f["ty"], s_stack + [{"kind": "out", "ty": sf["ty"], "field": sf["id"]}],
+                                  d_stack + [{"kind": "in", "ty": f["ty"], "field": f["id"]}], by_id, out)
+        return out
+
+    @staticmethod
+    def pos_origin(ty):
+        """the origin predicate of a type, where the public API can spell it with a concrete origin"""
+        t = ty["t"]
+        if t == "leaf":
+            return {"p": "origin", "o": {"o": "leaf", "n": ty["n"]}}
+        if t == "model":
+            return {"p": "origin", "o": {"o": "cls", "c": ty["cls"]}}
+        if t == "dict":
+            return {"p": "origin", "o": {"o": "dict"}}
+        if t == "opt":
+            return {"p": "origin", "o": {"o": "union"}}
+        if ty["o"] in ("list", "tuple", "deque"):
+            return {"p": "origin", "o": {"o": "iter", "k": ty["o"]}}
+        return {"p": "any"}
+
+    def pos_elem(self, loc):
+        """one pattern element describing the location by some of its attributes: origin of its type, field
+        name, position among the type arguments of its parent - now and then the *sibling* position"""
+        r = self.rng.random()
+        if loc["kind"] == "gparam":
+            if r < 0.55:
+                return {"p": "garg", "pos": loc["pos"], "q": self.pos_origin(loc["ty"])}
+            if r < 0.7:
+                return {"p": "garg", "pos": loc["pos"], "q": {"p": "any"}}
+            if r < 0.82:
+                return {"p": "garg", "pos": 1 - loc["pos"], "q": self.pos_origin(loc["ty"])}
+            return self.pos_origin(loc["ty"])
+        if loc["kind"] in ("out", "in", "field"):
+            if r < 0.55:
+                return {"p": "name", "n": loc["field"]}
+            if r < 0.85:
+                return self.pos_origin(loc["ty"])
+            return {"p": "any"}
+        return self.pos_origin(loc["ty"]) if r < 0.7 else {"p": "any"}
+
+    def pos_pred(self, stack):
+        """a pattern over a suffix of the stack: `P[dict].generic_arg(1, str)`, `P[D].f.generic_arg(0, int)`,
+        `P.generic_arg(0, str)`, `P[list].generic_arg(0, dict).generic_arg(1, int)`, ..."""
+        n = min(len(stack), self.rng.choice([1, 2, 2, 2, 3]))
+        els = [self.pos_elem(loc) for loc in stack[len(stack) - n:]]
+        if n == 1:
+            return els[0]
+        return {"p": "end", "stack": els}
+
+    def pos_coercers(self, sites, n):
+        """n user coercers, each aimed at one coercion site: the predicate of one side (or both) is a pattern over
+        the site's location stack, the other side names the type (or anything)"""
+        rng = self.rng
+        sites = [x for x in sites if len(x[0]) > 1]
+        leaf_sites = [x for x in sites if x[0][-1]["ty"]["t"] == "leaf" and x[1][-1]["ty"]["t"] == "leaf"]
+        out = []
+        for _ in range(n if sites else 0):
+            ss, ds = rng.choice(leaf_sites if leaf_sites and self.chance(0.9) else sites)
+            r = rng.random()
+            src = self.pos_pred(ss) if r < 0.45 or r >= 0.85 else \
+                self.pos_origin(ss[-1]["ty"]) if self.chance(0.8) else {"p": "any"}
+            dst = self.pos_pred(ds) if r >= 0.45 else \
+                self.pos_origin(ds[-1]["ty"]) if self.chance(0.8) else {"p": "any"}
+            out.append({"k": "coercer", "src": src, "dst": dst, "f": self.fresh_f()})
+        return out
+
+    def positional_case(self):
+        rng = self.rng
+        self.pyd = False
+        self.falsy = self.falsy and self.chance(0.3)
+        kinds = [k for k in KINDS if k != "pydantic"]
+        leaves = [LEAF_INT, LEAF_STR]
+        pairs = [(rng.choice(leaves), rng.choice(leaves))]
+        pairs.append((rng.choice(leaves), rng.choice(leaves)))
+
+        def model_pair(depth):
+            names = rng.sample(FIELD_NAMES, rng.randint(1, 3))
+            sf, df = [], []
+            for nm in names:
+                if depth > 0 and self.chance(0.3):
+                    ns, nd = model_pair(depth - 1)
+                    a, b = model_ty(ns["id"]), model_ty(nd["id"])
+                    if self.chance(0.4):
+                        w = rng.choice(["list", "dict", "opt"])
+                        if w == "list":
+                            a, b = {"t": "iter", "o": "list", "a": a}, {"t": "iter", "o": "list", "a": b}
+                        elif w == "dict":
+                            k = rng.choice(pairs)
+                            a, b = {"t": "dict", "k": leaf(k[0]), "v": a}, {"t": "dict", "k": leaf(k[1]), "v": b}
+                        else:
+                            a, b = {"t": "opt", "a": a}, {"t": "opt", "a": b}
+                else:
+                    a, b = self.pos_shape(pairs, 0)
+                sf.append({"id": nm, "ty": a})
+                df.append({"id": nm, "ty": b})
+            if self.chance(0.3):
+                sf.append({"id": "extra", "ty": leaf(LEAF_INT)})
+            return self.new_class("src", rng.choice(kinds), sf), self.new_class("dst", rng.choice(kinds), df)
+
+        if self.chance(0.2):        # the converter's own pair is a generic type
+            sty, dty = self.pos_shape(pairs, 0)
+            while sty["t"] == "leaf":
+                sty, dty = self.pos_shape(pairs, 0)
+        else:
+            s, d = model_pair(rng.choice([0, 1, 1]))
+            sty, dty = model_ty(s["id"]), model_ty(d["id"])
+        by_id = {c["id"]: c for c in self.classes}
+        sites = self.pos_sites(sty, dty, [{"kind": "field", "ty": sty, "field": "src"}], [{"kind": "type", "ty": dty}],
+                               by_id, [])
+        recipe = self.pos_coercers(sites, rng.choice([1, 2, 2, 3, 4]))
+        for a, b in dict.fromkeys(pairs):
+            if (a != b and self.chance(0.85)) or self.chance(0.3):    # the general, type-bound coercer of the pair
+                recipe.append({"k": "coercer", "src": self.pos_origin(leaf(a)), "dst": self.pos_origin(leaf(b)),
+                               "f": self.fresh_f()})
+        rng.shuffle(recipe)
+        sig = {"params": [{"name": "src", "kind": "pos_only", "ty": sty}], "ret": dty}
+        api = rng.choice(["get_converter", "get_converter", "retort.get_converter", "impl_converter",
+                          "retort.impl_converter", "retort.extend"])
+        case = {"classes": self.ordered_classes(), "sig": sig, "recipe": recipe, "api": api,
+                "fname": rng.choice(FUNC_NAMES), "split": rng.randint(0, len(recipe)),
+                "profile": {"deep": False, "falsy": self.falsy, "positional": True}}
+        case["calls"] = [self.call(case, by_id) for _ in range(2)]
+        return case
+
     # -- the whole case -------------------------------------------------------------
     def case(self):
         rng = self.rng
@@ -726,6 +892,15 @@ class Gen:
             if pred is not None and pred["p"] == "origin":
                 pred = {"p": "end", "stack": [pred, {"p": "any"}]}
             recipe.append({"k": "policy", "pred": pred, "allowed": self.chance(0.75)})
+        # ---- user coercers bound to positions of this pair's types (field / generic argument / origin patterns)
+        overlay = False
+        if not self.pyd and self.chance(0.15):
+            sites = self.pos_sites(model_ty(top_src["id"]), model_ty(top_dst["id"]),
+                                   [{"kind": "field", "ty": model_ty(top_src["id"]), "field": first_name}],
+                                   [{"kind": "type", "ty": model_ty(top_dst["id"])}], by_id, [])
+            extra = self.pos_coercers(sites, rng.choice([1, 1, 2]))
+            overlay = bool(extra)
+            recipe.extend(extra)
         if self.chance(0.6):
             rng.shuffle(recipe)
         # ---- signature
@@ -784,7 +959,7 @@ class Gen:
                 "fname": rng.choice(FUNC_NAMES), "split": rng.randint(0, len(recipe))}
         if case["api"] == "convert":
             case["fname"] = None
-        case["profile"] = {"deep": self.deep, "falsy": self.falsy}
+        case["profile"] = {"deep": self.deep, "falsy": self.falsy, "positional-overlay": overlay}
         if self.history:
             # the signature `_make_simple_converter` builds; the requests are drawn by history_case
             sig_params[0]["kind"], sig_params[0]["name"] = "pos_only", "src"
@@ -1056,7 +1231,9 @@ def gen_case(rng):
     dataclasses with keyword-only fields; such a draw is discarded, deterministically for a given rng state)"""
     from harness.props.c13_world import Universe
     for _ in range(50):
-        case = Gen(rng).case()
+        g = Gen(rng)
+        # one case in eight lies in the region "equal type pairs at sibling positions x position-bound coercers"
+        case = g.positional_case() if rng.random() < 0.125 else g.case()
         try:
             Universe(case["classes"])
         except Exception:  # noqa: BLE001, S112
